@@ -63,6 +63,12 @@ func linRun(args []string) error {
 	if hangs == 0 {
 		sink.Emit(lindrv.RunHookOrder())
 	}
+	// two Gets of one instance at the same time
+	if hangs == 0 {
+		for i, v := range lindrv.TwoGetVariants {
+			sink.Emit(lindrv.RunTwoGets(i+1, v))
+		}
+	}
 	// Get is a snapshot
 	if hangs == 0 {
 		for i, v := range lindrv.SnapVariants {
